@@ -119,6 +119,9 @@ impl RegisterBase {
         store: &impl NodeStore,
         cx: &mut ValueCtxt<T, U>,
     ) -> GenApiResult<()> {
+        // Every write path ends up here, including `IRegister::write`.
+        cx.invalidate_cache_by(nid);
+
         let length = self.length(device, store, cx)?;
 
         if buf.len() != length as usize {
